@@ -146,6 +146,11 @@ pub struct PathPrinter<W> {
 }
 
 impl<W: WriteColor> PathPrinter<W> {
+    /// Return a mutable reference to the underlying writer.
+    pub fn get_mut(&mut self) -> &mut W {
+        &mut self.wtr
+    }
+
     /// Write the given path to the underlying writer.
     pub fn write(&mut self, path: &Path) -> io::Result<()> {
         let ppath = PrinterPath::new(path.as_ref())
